@@ -26,6 +26,8 @@ def uvl_id(name, rng, p_quote=0.2):
 
 def uvl_ref(name, rng, p_quote=0.2):
     """A reference in a constraint; dotted references (Feature.attr) are quoted part-wise."""
+    if "." in name:
+        return ".".join(uvl_id(part, rng, p_quote) for part in name.split("."))
     return uvl_id(name, rng, p_quote)
 
 
